@@ -273,6 +273,8 @@ inductive Op
   | del (h : Nat)
   | delFailed (h : Nat)
   | fetch (h : Nat)
+  /-- bulk `DeletePayments(failedOnly, failedHtlcsOnly)`. -/
+  | delAll (failedOnly failedHtlcsOnly : Bool)
   deriving Repr
 
 /-- An answer: the error enum and, for the operations that return an `MPPayment`, the payment. -/
@@ -315,6 +317,21 @@ def resolve (b : Backend) (s : Store) (h id : Nat) (st : AState) : Store × Res 
             let s' := s.mapRows (fun _ x => resolveA id st x)
             (s', .ok, s'.payment? h)
     | e => (s, e, none)
+
+/-- `DeletePayments` skips a payment that is not `removable` (in flight) and, with
+    `failedOnly`, every payment whose status is not failed. -/
+def bulkSkip (failedOnly : Bool) (p : Payment) : Bool :=
+  p.status == .inFlight || (failedOnly && p.status != .failed)
+
+/-- the payments `DeletePayments(failedOnly, …)` acts on. -/
+def Store.bulkHit (s : Store) (failedOnly : Bool) (k : Nat) : Bool :=
+  match s.payment? k with
+  | some p => !bulkSkip failedOnly p
+  | none => false
+
+/-- drop the payment rows selected by `hit`. -/
+def Store.dropInfo (s : Store) (hit : Nat → Bool) : Store :=
+  { s with info := fun k => if hit k then none else s.info k }
 
 /-- `InitPayment`: a payment may be (re-)created when it is unknown or `initializable`. -/
 def initGate (s : Store) (h : Nat) : Err :=
@@ -380,6 +397,11 @@ def step (b : Backend) (s : Store) : Op → Store × Res
     match s.payment? h with
     | none => (s, .notInitiated, none)
     | some p => (s, .ok, some p)
+  | .delAll fo fho =>
+    -- both backends: for every payment that is not skipped, delete its failed attempts
+    -- (failedHtlcsOnly) or the whole payment (the returned count is `Store.bulkCount`).
+    if fho then (s.filterRows (fun o x => !(s.bulkHit fo o && x.st == .failed)), .ok, none)
+    else ((s.filterRows (fun o _ => !s.bulkHit fo o)).dropInfo (s.bulkHit fo), .ok, none)
 
 /-- Run an operation list, collecting the answers. -/
 def run (b : Backend) : Store → List Op → Store × List Res
@@ -422,7 +444,7 @@ def resolveRows (b : Backend) (h id : Nat) (st : AState) (L : List Row) : List R
   | .kv => L.map (fun r => ⟨r.owner, if r.owner == h then resolveA id st r.a else r.a⟩)
   | .sql => L.map (fun r => ⟨r.owner, resolveA id st r.a⟩)
 
-def ledgerStep (b : Backend) (op : Op) (ok : Bool) (L : List Row) : List Row :=
+def ledgerStep (b : Backend) (s : Store) (op : Op) (ok : Bool) (L : List Row) : List Row :=
   if !ok then L else
   match op with
   | .init h _ => L.filter (fun r => r.owner != h)
@@ -433,13 +455,16 @@ def ledgerStep (b : Backend) (op : Op) (ok : Bool) (L : List Row) : List Row :=
   | .del h => L.filter (fun r => r.owner != h)
   | .delFailed h => L.filter (fun r => !(r.owner == h && r.a.st == .failed))
   | .fetch _ => L
+  | .delAll fo fho =>
+    if fho then L.filter (fun r => !(s.bulkHit fo r.owner && r.a.st == .failed))
+    else L.filter (fun r => !s.bulkHit fo r.owner)
 
 /-- store + ghost ledger. -/
 abbrev GState := Store × List Row
 
 def gstep (b : Backend) (g : GState) (op : Op) : GState :=
   let r := step b g.1 op
-  (r.1, ledgerStep b op (r.2.1 == .ok) g.2)
+  (r.1, ledgerStep b g.1 op (r.2.1 == .ok) g.2)
 
 def gexec (b : Backend) (g : GState) (ops : List Op) : GState := ops.foldl (gstep b) g
 
@@ -456,5 +481,16 @@ def regFresh (s : Store) : Op → Bool
 def freshRun (b : Backend) (s : Store) : List Op → Bool
   | [] => true
   | op :: ops => regFresh s op && freshRun b (step b s op).1 ops
+
+/-- the count `DeletePayments` returns, over the hash universe `hs`. -/
+def Store.bulkCount (s : Store) (fo fho : Bool) (hs : List Nat) : Nat :=
+  if fho then 0 else (hs.filter (s.bulkHit fo)).length
+
+/-- `QueryPayments` (all payments, or only succeeded ones without `IncludeIncomplete`)
+    restricted to the hash universe `hs`: hash and status. -/
+def Store.listing (s : Store) (incl : Bool) (hs : List Nat) : List (Nat × Status) :=
+  hs.filterMap (fun h => match s.payment? h with
+    | some p => if incl || p.status == .succeeded then some (h, p.status) else none
+    | none => none)
 
 end LndModel.C16
